@@ -238,12 +238,12 @@ class Validator:
                 mism = []
             if mism:
                 self.stats["layout_mismatches"] += 1
-                path, what = mism[0]
+                path, what, cause = mism[0]
                 ctx.violation("byte layout of block %s (%s) of %s differs from the WGSL layout in the IR: %s%s: %s; the text has no "
                               "explicit padding or layout(offset=) (GLSL reads/writes other bytes than WGSL prescribes)"
                               % (blk["name"], blk["layout"], name, g.get("Name"), path, what),
-                              files={"input.wgsl": src, "output.glsl": ep["text"], "mismatches.txt": "\n".join("%s: %s" % m for m in mism)},
-                              key="layout:%s:%s" % (blk["layout"], re.sub(r"\d+", "N", what)))
+                              files={"input.wgsl": src, "output.glsl": ep["text"], "mismatches.txt": "\n".join("%s: %s (%s)" % m for m in mism)},
+                              key="layout:%s:%s" % (blk["layout"], cause if cause != "other" else "%s:%s" % (name, re.sub(r"\d+", "N", what))))
 
     def judge(self, m, a, b):
         ctx = self.ctx
